@@ -1228,7 +1228,7 @@ def worker(args) -> Result:
     rng = random.Random(seed)
     res = Result()
     drv = Driver()
-    vdrv = Driver(VALID_DRIVER) if (VALID_DRIVER.exists() and prop in ("C03", "C04", "C05", "C06")) else None
+    vdrv = Driver(VALID_DRIVER) if VALID_DRIVER.exists() else None
     batch_lines: list[str] = []
     batch_meta: list = []
     oracle_sigs: set = set()
@@ -1242,19 +1242,43 @@ def worker(args) -> Result:
         for spec, init_line, ops, outs, states, n in batch_meta:
             seg = outl[pos:pos + n]
             if vout is not None:
-                # hypotheses of the theorems, measured: is `Valid` (checked by the sound Boolean
-                # checker inside the model) true in every state the session reaches?
+                # hypotheses of the whole-history theorems, measured on the model state after every
+                # step: `Inv` (8 clauses, sound checker R4A.invB) and each operation's `OpPre`
+                # (R4A.opOKB). A session is "in scope" of C02_session_valid / C03_reach from an
+                # Inv start state for as long as every operation satisfies its precondition.
+                names = ["valid", "keys", "edgeReg", "edgeIou", "nodeReg", "nodeVal", "segOK", "misc"]
+                in_scope = None
                 for j, vl in enumerate(vout[pos:pos + n]):
-                    if " linOn=1" not in vl:
-                        res.count("hyp:Valid:not-applicable(lineage off)")
-                    elif vl.startswith("err") or vl.startswith("bad-op"):
-                        res.count("hyp:Valid:after-refusal:" + ("true" if " V=1" in vl else "false"))
-                    elif " V=1" in vl:
+                    parts = dict(x.split("=", 1) for x in vl.split()[1:] if "=" in x)
+                    bits_ = parts.get("I", "")
+                    ok_all = bits_ != "" and set(bits_) == {"1"}
+                    if " V=1" in vl:
                         res.count("hyp:Valid:true")
+                    elif parts.get("linOn") == "0":
+                        res.count("hyp:Valid:n/a(lineage off)")
                     else:
                         res.count("hyp:Valid:false")
+                    if j == 0:
+                        in_scope = ok_all
+                        if not ok_all:
+                            bad = ",".join(nm for nm, b in zip(names, bits_) if b == "0")
+                            res.count("hyp:session-out-of-scope:start-state-lacks:" + bad)
+                        continue
+                    if not in_scope:
+                        continue
+                    if parts.get("P") != "1":
+                        in_scope = False
+                        res.count("hyp:session-leaves-scope-at:" + ops[j - 1]["op"] + (":not-an-Op" if parts.get("P") == "-" else ":OpPre-false"))
+                        continue
+                    if ok_all:
+                        res.count("hyp:Inv:in-scope-state:true")
+                    else:
+                        bad = ",".join(nm for nm, b in zip(names, bits_) if b == "0")
+                        res.count("hyp:Inv:in-scope-state:FALSE:" + bad)
+                        in_scope = False
                         if len(res.notes) < 5:
-                            res.notes.append(f"Valid checker false at step {j} of session {json.dumps({'spec': spec, 'ops': ops[:j]})[:600]}")
+                            res.notes.append(f"Inv checker false ({bad}) at step {j} of an in-scope session: "
+                                             + json.dumps({'spec': spec, 'ops': ops[:j]})[:700])
             pos += n
             for f in compare_session(prop, spec, init_line, ops, outs, states, seg, res):
                 if len([x for x in res.failures if x.kind == "divergence"]) < 5:
